@@ -1144,9 +1144,12 @@ Proof.
   destruct o; cbn [guard] in G.
   - (* ONew *) cbn. apply WF_new_node; auto.
   - (* OAddNode *)
-    apply andb_true_iff in G. destruct G as [G G4]. apply andb_true_iff in G. destruct G as [G G3].
-    apply andb_true_iff in G. destruct G as [G1 G2].
-    apply Nat.ltb_lt in G1. apply negb_true_iff in G2.
+    apply andb_true_iff in G. destruct G as [G1 G]. apply Nat.ltb_lt in G1.
+    destruct (in_graph s o) eqn:G2.
+    { (* already in the graph: its id is in the index, add_node raises and changes nothing *)
+      apply in_graph_In in G2. destruct (wf_idx_id s W) as (_ & Hin & _). destruct (Hin o G2) as (k & Hk & Hd).
+      unfold id_of in Hk. unfold add_node. rewrite Hk. unfold dhas. rewrite Hd. cbn. exact W. }
+    cbn [orb] in G. apply andb_true_iff in G. destruct G as [G3 G4].
     assert (No : ~ In o (g_nodes (s_g s))) by (rewrite <- in_graph_In; congruence).
     destruct (n_children (s_nh s o)) eqn:E1; [|discriminate].
     destruct (n_parents (s_nh s o)) eqn:E2; [|discriminate].
